@@ -74,15 +74,20 @@ def _model_dict(m):
     return out
 
 
-def _solve(smt2, timeout_ms, tactic, want_model):
+def _solve(smt2, timeout_ms, tactic, want_model, seed=0):
     import z3 as Z
     t0 = time.time()
     try:
+        # a fresh context per query: z3's search order depends on AST identifiers, i.e. on everything the context
+        # has seen before; with a fresh context the verdict is a function of the query text (and the seed) only
+        ctx = Z.Context()
         if tactic:
-            s = Z.Tactic(tactic).solver()
+            s = Z.Tactic(tactic, ctx=ctx).solver()
         else:
-            s = Z.Solver()
-        s.set("timeout", timeout_ms)
+            s = Z.Solver(ctx=ctx)
+        s.set("timeout", int(timeout_ms))
+        if seed:
+            s.set("random_seed", seed)
         s.from_string(smt2)
         r = s.check()
         res = str(r)
@@ -217,11 +222,22 @@ def _pipeline(ob, timeout_ms, tac, retry_ms, use_cvc5):
         if r == "unsat":
             return "proved", "z3", time.time() - t0, None, ""
         for sm in ob.slices:
-            r, _, _, _ = _solve(sm, min(timeout_ms, 8000), tac, False)
-            if r == "unsat":
-                return "proved", "z3", time.time() - t0, None, ""
-    # a candidate counter-model already exists: the full query (with quantified clauses) gets a short budget
-    r, model, _, reason = _solve(ob.smt2, min(timeout_ms, 10000) if model1 is not None else timeout_ms, tac, True)
+            for seed in (0, 1):
+                r, _, _, _ = _solve(sm, min(timeout_ms, 4000), tac, False, seed)
+                if r == "unsat":
+                    return "proved", "z3", time.time() - t0, None, ""
+                if r == "sat":
+                    break
+    # quantifier instantiation is sensitive to the search order: a small portfolio of seeds with short budgets is more
+    # robust than one long run (a proof, when found, is found in milliseconds).  With a candidate counter-model from the
+    # quantifier-free query the full query gets a short budget.
+    budget = min(timeout_ms, 10000) if model1 is not None else timeout_ms
+    plan = [(0, budget / 4.0), (1, budget / 4.0), (2, budget / 4.0), (3, budget / 4.0)] if ob.smt2_qf is not None else [(0, budget)]
+    r, model, reason = "unknown", None, ""
+    for seed, tmo in plan:
+        r, model, _, reason = _solve(ob.smt2, max(tmo, 1000), tac, True, seed)
+        if r in ("sat", "unsat"):
+            break
     if model is None:
         model = model1
     backend = "z3"
@@ -234,6 +250,14 @@ def _pipeline(ob, timeout_ms, tac, retry_ms, use_cvc5):
         if r3 in ("sat", "unsat"):
             r, model, backend = r3, model3, "z3-retry"
     status = {"unsat": "proved", "sat": "refuted"}.get(r, "unknown")
+    dump = os.environ.get("PYVC_DUMP_UNKNOWN")
+    if dump and status != "proved":
+        try:
+            os.makedirs(dump, exist_ok=True)
+            with open(os.path.join(dump, re.sub(r"[^A-Za-z0-9_.-]+", "_", ob.name)[:150] + ".smt2"), "w") as f:
+                f.write(ob.smt2)
+        except Exception:
+            pass
     if status == "unknown" and model1 is not None:
         # satisfiable without the quantified axioms, undecided with them: candidate counter-model
         status, reason = "refuted", "candidate model (quantified axioms not decided): " + str(reason)
